@@ -132,6 +132,10 @@ Labels(e) ==
     [] e.sp = "cmp" /\ e.op = "sample" ->
          L(~e.stream, "C13/stream-order") \cup L(~e.resolution, "C13/resolution") \cup L(~e.insat, "C11/sample-sat")
     [] e.op = "equals-compound" -> L(~e.ok, "C13/se-equals-compound")
+    [] e.sp \in {"se2", "se3"} /\ e.op = "new" ->
+         L((e.len = 3) # e.ok, "C12/accept") \cup L(~e.ok /\ e.len # 3 /\ e.err # "DimensionMismatch", "C12/error-kind")
+    [] e.sp \in {"se2", "se3"} /\ e.op = "newyaw" ->
+         L(e.wf # e.ok, "C12/accept") \cup L(~e.ok /\ e.err # "InvalidBound", "C12/error-kind")
     [] OTHER -> {"TOOL/unknown-event"}
 
 Init == l = 1 /\ nviol = 0
